@@ -670,6 +670,14 @@ func (e *End) Link() *Link { return e.l }
 // whenever bytes are pending it sleeps lat[i] (virtual clock inside a bubble) and then delivers seg[i] bytes
 // (seg[i] <= 0: one whole chunk). The goroutine ends when the writer end is closed and nothing is pending.
 func (l *Link) StartPump(d Dir, lat []time.Duration, seg []int) {
+	l.StartPumpAfter(d, nil, lat, seg)
+}
+
+// StartPumpAfter is StartPump preceded by a prefix of exact segments: the first bytes of the direction arrive in
+// segments of pre[0], pre[1], ... bytes, 1 ms apart - inside a bubble that means the reader has consumed everything
+// that was deliverable before the next segment arrives, so the cut positions are exactly the generated ones.
+func (l *Link) StartPumpAfter(d Dir, pre []int, lat []time.Duration, seg []int) {
+	pre = append([]int(nil), pre...)
 	if len(lat) == 0 {
 		lat = []time.Duration{0}
 	}
@@ -687,6 +695,15 @@ func (l *Link) StartPump(d Dir, lat []time.Duration, seg []int) {
 			l.mu.Unlock()
 			if done {
 				return
+			}
+			if len(pre) > 0 {
+				time.Sleep(time.Millisecond)
+				if got := l.DeliverBytes(d, pre[0]); got >= pre[0] {
+					pre = pre[1:]
+				} else {
+					pre[0] -= got
+				}
+				continue
 			}
 			if w := lat[i%len(lat)]; w > 0 {
 				time.Sleep(w)
